@@ -1,1 +1,576 @@
-#![allow(dead_code)]
+// In-crate harnesses for `sst::log` (C12, C09): the write -> read round trip decomposed at the
+// byte image (DESIGN.md 3/C12).  The builder's private `bytes_written` is preset to
+// 2^20 - D so the 1 MiB boundary arithmetic is exercised with ~60 bytes of data; the reader is
+// a harness `Read + Seek` serving its bytes at that absolute offset.
+//
+//   T  natively, on every run: the real writer is run on a base filling and on one perturbed
+//      filling per payload variable; positions that never change are LAYOUT, positions that
+//      follow exactly one variable are that variable's, positions that follow several are the
+//      CRC.  Nothing about the format is written by hand.  (`verif_template` test prints the
+//      tables; the runner stores them in /verif/build/gen/log_templates.rs.)
+//   W  solver: for ALL payload values the real writer's output equals the instantiated template.
+//   R  solver: for ALL payload values the real reader on the instantiated template yields
+//      exactly the appended entries, then Ok(None); and on every cut of it a prefix of the
+//      batches then end-or-error.
+//   W and R together give the round trip for that shape.
+#![allow(dead_code, unused_imports, clippy::all)]
+#[macro_use]
+#[path = "/verif/hk/vk.rs"]
+mod vk;
+#[path = "/verif/hk/serr.rs"]
+mod serr;
+use super::*;
+use vk::Tape;
+
+#[cfg(kani)]
+include!("/verif/build/gen/log_templates.rs");
+
+const BLOCK: u64 = 1 << 20;
+/// The checksum the solver sees instead of CRC-32C (whose table lookups / CPU dispatch CBMC
+/// cannot execute): cheap, data dependent, and the SAME function the template instantiation
+/// uses, so writer and reader are still checked for agreeing on WHICH bytes are summed.
+fn stub_crc(buf: &[u8]) -> u32 {
+    let mut x = 0x5au8;
+    let mut i = 0;
+    while i < buf.len() {
+        x = x.rotate_left(1) ^ buf[i];
+        i += 1;
+    }
+    u32::from_le_bytes([x, !x, x.rotate_left(3), 0xc3])
+}
+#[cfg(kani)]
+fn stub_setsum_put(s: &mut Setsum, _: &[u8], _: u64, _: &[u8]) {
+    let mut one = [0u8; 32];
+    one[0] = 1;
+    *s += Setsum::from_digest(one);
+}
+#[cfg(kani)]
+fn stub_setsum_del(s: &mut Setsum, _: &[u8], _: u64) {
+    let mut one = [0u8; 32];
+    one[0] = 1;
+    *s += Setsum::from_digest(one);
+}
+
+/// `sst::system_error` builds its text with `io::Error::to_string()` (the whole fmt machinery,
+/// not covered by the format! stub); only is_err() matters.
+#[cfg(kani)]
+fn stub_system_error(e: std::io::Error) -> SError {
+    core::mem::forget(e);
+    serr::serr_new("")
+}
+
+fn opts() -> LogOptions {
+    LogOptions { write_buffer: 0, read_buffer: 0, rollover_size: 1 << 30 }
+}
+
+// ------------------------------------------------------------------ shapes and payloads
+
+/// One shape: distance D of the first byte from the next 1 MiB boundary, a first batch
+/// put(key[LK], ts, value[LV]) and optionally a second batch del(key[1], ts).
+/// Payload variables, in order: key bytes, ts, value bytes, [key2, ts2]; all < 0x80 (the 1-byte
+/// varint class, where a variable is stored as the byte itself).
+pub const fn nvars(lk: usize, lv: usize, second: u8) -> usize {
+    lk + 1 + lv + match second { 0 => 0, 1 => 2, _ => 3 }
+}
+
+fn run_writer(d: u64, lk: usize, lv: usize, second: u8, p: &[u8]) -> Result<Vec<u8>, SError> {
+    let mut out: Vec<u8> = Vec::new();
+    {
+        let mut lb = LogBuilder::from_write(opts(), &mut out)?;
+        lb.bytes_written = BLOCK - d;
+        if second == 2 {
+            // ONE batch of two entries
+            let mut wb = WriteBatch::default();
+            wb.put(&p[..lk], p[lk] as u64, &p[lk + 1..lk + 1 + lv])?;
+            wb.put(&p[lk + 1 + lv..lk + 2 + lv], p[lk + 2 + lv] as u64, &p[lk + 3 + lv..lk + 4 + lv])?;
+            lb.append(&wb)?;
+        } else {
+            lb.put(&p[..lk], p[lk] as u64, &p[lk + 1..lk + 1 + lv])?;
+            if second == 1 {
+                lb.del(&p[lk + 1 + lv..lk + 2 + lv], p[lk + 2 + lv] as u64)?;
+            }
+        }
+        lb.flush()?;
+    }
+    Ok(out)
+}
+
+// ------------------------------------------------------------------ the harness reader
+
+pub struct ImgReader<const N: usize> {
+    img: [u8; N],
+    len: usize, // bytes available (a cut shortens it)
+    base: u64,  // absolute offset of img[0]
+    pos: u64,   // absolute position
+}
+impl<const N: usize> Read for ImgReader<N> {
+    fn read(&mut self, buf: &mut [u8]) -> std::io::Result<usize> {
+        let end = self.base + self.len as u64;
+        if self.pos < self.base || self.pos >= end {
+            return Ok(0);
+        }
+        let off = (self.pos - self.base) as usize;
+        let avail = self.len - off;
+        let n = if buf.len() < avail { buf.len() } else { avail };
+        let mut i = 0;
+        while i < n {
+            buf[i] = self.img[off + i];
+            i += 1;
+        }
+        self.pos += n as u64;
+        Ok(n)
+    }
+}
+impl<const N: usize> Seek for ImgReader<N> {
+    fn seek(&mut self, to: SeekFrom) -> std::io::Result<u64> {
+        self.pos = match to {
+            SeekFrom::Start(x) => x,
+            SeekFrom::Current(d) => (self.pos as i64 + d) as u64,
+            SeekFrom::End(d) => ((self.base + self.len as u64) as i64 + d) as u64,
+        };
+        Ok(self.pos)
+    }
+}
+
+/// Instantiate a template: layout bytes as observed, payload positions from `p`, and each
+/// checksum group g (kind 0xF0 | g<<2 | byte) = `crc(img[a..b])` over the byte range the
+/// derivation found that group to cover.
+fn instantiate<const N: usize>(layout: &[u8; N], kind: &[u8; N], crcs: &[(usize, usize)], p: &[u8], crc: fn(&[u8]) -> u32) -> [u8; N] {
+    let mut img = [0u8; N];
+    let mut i = 0;
+    while i < N {
+        img[i] = match kind[i] {
+            0 => layout[i],
+            v if v >= 0xf0 => 0,
+            v => p[(v - 1) as usize],
+        };
+        i += 1;
+    }
+    let mut g = 0;
+    while g < crcs.len() {
+        let (a, b) = crcs[g];
+        let c = crc(&img[a..b]).to_le_bytes();
+        let mut i = 0;
+        while i < N {
+            if kind[i] >= 0xf0 && ((kind[i] & 0x0f) >> 2) as usize == g {
+                img[i] = c[(kind[i] & 3) as usize];
+            }
+            i += 1;
+        }
+        g += 1;
+    }
+    img
+}
+
+// ------------------------------------------------------------------ W: writer == template
+
+fn writer_half<const N: usize, const NV: usize>(t: &[u8], d: u64, lk: usize, lv: usize, second: u8, layout: &[u8; N], kind: &[u8; N], crcs: &[(usize, usize)]) {
+    let mut p = [0u8; NV];
+    let mut i = 0;
+    while i < NV {
+        p[i] = t[i] & 0x7f;
+        i += 1;
+    }
+    let out = run_writer(d, lk, lv, second, &p);
+    assert!(out.is_ok(), "the writer accepts the batches");
+    let out = out.unwrap();
+    assert!(out.len() == N, "the image has the observed length for every payload");
+    let img = instantiate(layout, kind, crcs, &p, stub_crc);
+    let mut i = 0;
+    while i < N {
+        assert!(out[i] == img[i], "the writer's output is the observed layout with the payload filled in");
+        i += 1;
+    }
+    vcover!(p[0] != 0x11, "a payload other than the ones the template was derived from");
+    core::mem::forget(out);
+}
+
+// ------------------------------------------------------------------ R: reader on the template
+
+/// `cut`: number of image bytes the reader can see (N = intact).
+fn reader_half<const N: usize, const NV: usize>(t: &[u8], d: u64, lk: usize, lv: usize, second: u8, layout: &[u8; N], kind: &[u8; N], crcs: &[(usize, usize)], cut_mode: isize) {
+    let mut p = [0u8; NV];
+    let mut i = 0;
+    while i < NV {
+        p[i] = t[i] & 0x7f;
+        i += 1;
+    }
+    // cut: -1 intact, -2 symbolic, otherwise a concrete truncation length
+    let cut = if cut_mode == -1 { N } else if cut_mode == -2 { t[NV] as usize } else { cut_mode as usize };
+    vassume!(cut <= N);
+    let img = instantiate(layout, kind, crcs, &p, stub_crc);
+    let r = ImgReader::<N> { img, len: cut, base: BLOCK - d, pos: BLOCK - d };
+    let it = LogIterator::from_reader(opts(), r);
+    assert!(it.is_ok(), "from_reader Ok");
+    let mut it = it.unwrap();
+    // batch 1: put(key, ts, value)
+    let mut got = 0;
+    let mut errored = false;
+    match it.next() {
+        Ok(Some(kvr)) => {
+            assert!(kvr.key.len() == lk && kvr.timestamp == p[lk] as u64, "first entry: key length and timestamp");
+            let mut i = 0;
+            while i < lk {
+                assert!(kvr.key[i] == p[i], "first entry: key bytes");
+                i += 1;
+            }
+            match kvr.value {
+                Some(v) => {
+                    assert!(v.len() == lv, "first entry: value length");
+                    let mut i = 0;
+                    while i < lv {
+                        assert!(v[i] == p[lk + 1 + i], "first entry: value bytes");
+                        i += 1;
+                    }
+                }
+                None => assert!(false, "a put is read back as a tombstone"),
+            }
+            got = 1;
+        }
+        Ok(None) => {}
+        Err(_) => errored = true,
+    }
+    if got == 1 && second != 0 {
+        match it.next() {
+            Ok(Some(kvr)) => {
+                assert!(kvr.key.len() == 1 && kvr.key[0] == p[lk + 1 + lv] && kvr.timestamp == p[lk + 2 + lv] as u64, "second entry: key and timestamp");
+                if second == 1 {
+                    assert!(kvr.value.is_none(), "second entry: the tombstone");
+                } else {
+                    assert!(kvr.value.map(|v| v.len() == 1 && v[0] == p[lk + 3 + lv]) == Some(true), "second entry: the value");
+                }
+                got = 2;
+            }
+            Ok(None) => {}
+            Err(_) => errored = true,
+        }
+    }
+    let total = if second != 0 { 2 } else { 1 };
+    if second == 2 {
+        assert!(got != 1, "a batch of two entries is returned whole or not at all");
+    }
+    if cut == N {
+        assert!(got == total && !errored, "an intact log yields every appended batch");
+    }
+    if !errored {
+        // after the last entry (or the torn tail): end, or an error -- never another entry
+        match it.next() {
+            Ok(Some(_)) => assert!(false, "the reader invents an entry"),
+            Ok(None) => {}
+            Err(_) => {}
+        }
+    }
+    vcover!(cut_mode != -1 || cut == N, "intact image");
+    vcover!(cut_mode != -2 || (cut < N && errored), "a cut that the reader reports as an error");
+    vcover!(cut_mode != -2 || (cut < N && !errored && got < total), "a cut that the reader takes as the end of the log");
+    vcover!(cut_mode < 0 || got < total, "the truncated image loses the tail");
+    core::mem::forget(it);
+}
+
+// ------------------------------------------------------------------ shapes (name, D, LK, LV, second)
+
+macro_rules! log_shape {
+    ($w:ident, $r:ident, $c:ident, $d:expr, $lk:expr, $lv:expr, $second:expr, $len:ident, $layout:ident, $kind:ident, $crcs:ident) => {
+        harness!(
+            #[kani::stub(crc32c::crc32c, stub_crc)]
+            #[kani::stub(crate::system_error, stub_system_error)]
+            #[kani::stub(crate::setsum::Setsum::put, stub_setsum_put)]
+            #[kani::stub(crate::setsum::Setsum::del, stub_setsum_del)]
+            #[kani::stub(alloc::fmt::format, serr::format)]
+            #[kani::stub(handled::SError::new, serr::serr_new)]
+            #[kani::stub(handled::SError::with_code, serr::serr_with_str)]
+            #[kani::stub(handled::SError::with_message, serr::serr_with_str)]
+            #[kani::stub(handled::SError::with_atom_field, serr::serr_with_atom)]
+            #[kani::stub(handled::SError::with_string_field, serr::serr_with_string)]
+            #[kani::stub(handled::SError::with_debug_field, serr::serr_with_debug)]
+            $w, nvars($lk, $lv, $second), |t| {
+                #[cfg(kani)]
+                writer_half::<$len, { nvars($lk, $lv, $second) }>(t, $d, $lk, $lv, $second, &$layout, &$kind, &$crcs);
+                #[cfg(not(kani))]
+                native_shape_check($d, $lk, $lv, $second, t, -1);
+            });
+        harness!(
+            #[kani::stub(crc32c::crc32c, stub_crc)]
+            #[kani::stub(crate::system_error, stub_system_error)]
+            #[kani::stub(alloc::fmt::format, serr::format)]
+            #[kani::stub(handled::SError::new, serr::serr_new)]
+            #[kani::stub(handled::SError::with_code, serr::serr_with_str)]
+            #[kani::stub(handled::SError::with_message, serr::serr_with_str)]
+            #[kani::stub(handled::SError::with_atom_field, serr::serr_with_atom)]
+            #[kani::stub(handled::SError::with_string_field, serr::serr_with_string)]
+            #[kani::stub(handled::SError::with_debug_field, serr::serr_with_debug)]
+            $r, nvars($lk, $lv, $second) + 1, |t| {
+                #[cfg(kani)]
+                reader_half::<$len, { nvars($lk, $lv, $second) }>(t, $d, $lk, $lv, $second, &$layout, &$kind, &$crcs, -1);
+                #[cfg(not(kani))]
+                native_shape_check($d, $lk, $lv, $second, t, -1);
+            });
+        harness!(
+            #[kani::stub(crc32c::crc32c, stub_crc)]
+            #[kani::stub(crate::system_error, stub_system_error)]
+            #[kani::stub(alloc::fmt::format, serr::format)]
+            #[kani::stub(handled::SError::new, serr::serr_new)]
+            #[kani::stub(handled::SError::with_code, serr::serr_with_str)]
+            #[kani::stub(handled::SError::with_message, serr::serr_with_str)]
+            #[kani::stub(handled::SError::with_atom_field, serr::serr_with_atom)]
+            #[kani::stub(handled::SError::with_string_field, serr::serr_with_string)]
+            #[kani::stub(handled::SError::with_debug_field, serr::serr_with_debug)]
+            $c, nvars($lk, $lv, $second) + 1, |t| {
+                #[cfg(kani)]
+                reader_half::<$len, { nvars($lk, $lv, $second) }>(t, $d, $lk, $lv, $second, &$layout, &$kind, &$crcs, -2);
+                #[cfg(not(kani))]
+                native_shape_check($d, $lk, $lv, $second, t, -2);
+            });
+    };
+}
+log_shape!(w_whole_d40, r_whole_d40, c_whole_d40, 40, 1, 1, 0, T_WHOLE_D40_LEN, T_WHOLE_D40_LAYOUT, T_WHOLE_D40_KIND, T_WHOLE_D40_CRCS);
+log_shape!(w_two_d60, r_two_d60, c_two_d60, 60, 2, 3, 1, T_TWO_D60_LEN, T_TWO_D60_LAYOUT, T_TWO_D60_KIND, T_TWO_D60_CRCS);
+log_shape!(w_exact_d22, r_exact_d22, c_exact_d22, 22, 1, 1, 0, T_EXACT_D22_LEN, T_EXACT_D22_LAYOUT, T_EXACT_D22_KIND, T_EXACT_D22_CRCS);
+log_shape!(w_pad_d5, r_pad_d5, c_pad_d5, 5, 1, 1, 0, T_PAD_D5_LEN, T_PAD_D5_LAYOUT, T_PAD_D5_KIND, T_PAD_D5_CRCS);
+log_shape!(w_split_d20, r_split_d20, c_split_d20, 20, 1, 1, 0, T_SPLIT_D20_LEN, T_SPLIT_D20_LAYOUT, T_SPLIT_D20_KIND, T_SPLIT_D20_CRCS);
+log_shape!(w_pad_d1, r_pad_d1, c_pad_d1, 1, 1, 1, 0, T_PAD_D1_LEN, T_PAD_D1_LAYOUT, T_PAD_D1_KIND, T_PAD_D1_CRCS);
+log_shape!(w_bound_d0, r_bound_d0, c_bound_d0, 0, 1, 1, 0, T_BOUND_D0_LEN, T_BOUND_D0_LAYOUT, T_BOUND_D0_KIND, T_BOUND_D0_CRCS);
+log_shape!(w_split_d21, r_split_d21, c_split_d21, 21, 1, 1, 0, T_SPLIT_D21_LEN, T_SPLIT_D21_LAYOUT, T_SPLIT_D21_KIND, T_SPLIT_D21_CRCS);
+log_shape!(w_exact_d25, r_exact_d25, c_exact_d25, 25, 2, 3, 0, T_EXACT_D25_LEN, T_EXACT_D25_LAYOUT, T_EXACT_D25_KIND, T_EXACT_D25_CRCS);
+log_shape!(w_two_pad_d23, r_two_pad_d23, c_two_pad_d23, 23, 1, 1, 1, T_TWO_PAD_D23_LEN, T_TWO_PAD_D23_LAYOUT, T_TWO_PAD_D23_KIND, T_TWO_PAD_D23_CRCS);
+log_shape!(w_pad_d19, r_pad_d19, c_pad_d19, 19, 1, 1, 0, T_PAD_D19_LEN, T_PAD_D19_LAYOUT, T_PAD_D19_KIND, T_PAD_D19_CRCS);
+log_shape!(w_split_d26, r_split_d26, c_split_d26, 26, 3, 4, 0, T_SPLIT_D26_LEN, T_SPLIT_D26_LAYOUT, T_SPLIT_D26_KIND, T_SPLIT_D26_CRCS);
+log_shape!(w_batch2_d32, r_batch2_d32, c_batch2_d32, 32, 1, 1, 2, T_BATCH2_D32_LEN, T_BATCH2_D32_LAYOUT, T_BATCH2_D32_KIND, T_BATCH2_D32_CRCS);
+log_shape!(w_batch2_d60, r_batch2_d60, c_batch2_d60, 60, 1, 1, 2, T_BATCH2_D60_LEN, T_BATCH2_D60_LAYOUT, T_BATCH2_D60_KIND, T_BATCH2_D60_CRCS);
+
+/// Concrete truncation lengths (no format knowledge: relative to the block boundary and the
+/// ends of the image): the image cut at `$cut` bytes.
+macro_rules! log_cut {
+    ($name:ident, $cut:expr, $d:expr, $lk:expr, $lv:expr, $second:expr, $len:ident, $layout:ident, $kind:ident, $crcs:ident) => {
+        harness!(
+            #[kani::stub(crc32c::crc32c, stub_crc)]
+            #[kani::stub(crate::system_error, stub_system_error)]
+            #[kani::stub(alloc::fmt::format, serr::format)]
+            #[kani::stub(handled::SError::new, serr::serr_new)]
+            #[kani::stub(handled::SError::with_code, serr::serr_with_str)]
+            #[kani::stub(handled::SError::with_message, serr::serr_with_str)]
+            #[kani::stub(handled::SError::with_atom_field, serr::serr_with_atom)]
+            #[kani::stub(handled::SError::with_string_field, serr::serr_with_string)]
+            #[kani::stub(handled::SError::with_debug_field, serr::serr_with_debug)]
+            $name, nvars($lk, $lv, $second) + 1, |t| {
+                #[cfg(kani)]
+                reader_half::<$len, { nvars($lk, $lv, $second) }>(t, $d, $lk, $lv, $second, &$layout, &$kind, &$crcs, $cut);
+                #[cfg(not(kani))]
+                native_shape_check($d, $lk, $lv, $second, t, $cut);
+            });
+    };
+}
+// the split batch of two entries: cut at the boundary, one byte either side, right after the
+// first byte, and one byte before the end
+log_cut!(k_batch2_d32_at_boundary, 32, 32, 1, 1, 2, T_BATCH2_D32_LEN, T_BATCH2_D32_LAYOUT, T_BATCH2_D32_KIND, T_BATCH2_D32_CRCS);
+log_cut!(k_batch2_d32_before_boundary, 31, 32, 1, 1, 2, T_BATCH2_D32_LEN, T_BATCH2_D32_LAYOUT, T_BATCH2_D32_KIND, T_BATCH2_D32_CRCS);
+log_cut!(k_batch2_d32_after_boundary, 33, 32, 1, 1, 2, T_BATCH2_D32_LEN, T_BATCH2_D32_LAYOUT, T_BATCH2_D32_KIND, T_BATCH2_D32_CRCS);
+log_cut!(k_batch2_d32_mid_padding, 26, 32, 1, 1, 2, T_BATCH2_D32_LEN, T_BATCH2_D32_LAYOUT, T_BATCH2_D32_KIND, T_BATCH2_D32_CRCS);
+log_cut!(k_whole_d40_last_byte, 21, 40, 1, 1, 0, T_WHOLE_D40_LEN, T_WHOLE_D40_LAYOUT, T_WHOLE_D40_KIND, T_WHOLE_D40_CRCS);
+log_cut!(k_whole_d40_first_byte, 1, 40, 1, 1, 0, T_WHOLE_D40_LEN, T_WHOLE_D40_LAYOUT, T_WHOLE_D40_KIND, T_WHOLE_D40_CRCS);
+log_cut!(k_whole_d40_empty, 0, 40, 1, 1, 0, T_WHOLE_D40_LEN, T_WHOLE_D40_LAYOUT, T_WHOLE_D40_KIND, T_WHOLE_D40_CRCS);
+log_cut!(k_split_d20_at_boundary, 20, 20, 1, 1, 0, T_SPLIT_D20_LEN, T_SPLIT_D20_LAYOUT, T_SPLIT_D20_KIND, T_SPLIT_D20_CRCS);
+log_cut!(k_two_d60_between, 25, 60, 2, 3, 1, T_TWO_D60_LEN, T_TWO_D60_LAYOUT, T_TWO_D60_KIND, T_TWO_D60_CRCS);
+log_cut!(k_two_d60_in_second, 30, 60, 2, 3, 1, T_TWO_D60_LEN, T_TWO_D60_LAYOUT, T_TWO_D60_KIND, T_TWO_D60_CRCS);
+
+/// (name, D, LK, LV, second) -- the list the template derivation walks.
+pub const SHAPES: &[(&str, u64, usize, usize, u8)] = &[
+    ("WHOLE_D40", 40, 1, 1, 0),
+    ("TWO_D60", 60, 2, 3, 1),
+    ("EXACT_D22", 22, 1, 1, 0),
+    ("PAD_D5", 5, 1, 1, 0),
+    ("SPLIT_D20", 20, 1, 1, 0),
+    ("PAD_D1", 1, 1, 1, 0),
+    ("BOUND_D0", 0, 1, 1, 0),
+    ("SPLIT_D21", 21, 1, 1, 0),
+    ("EXACT_D25", 25, 2, 3, 0),
+    ("TWO_PAD_D23", 23, 1, 1, 1),
+    ("PAD_D19", 19, 1, 1, 0),
+    ("SPLIT_D26", 26, 3, 4, 0),
+    ("BATCH2_D32", 32, 1, 1, 2),
+    ("BATCH2_D60", 60, 1, 1, 2),
+];
+
+// ------------------------------------------------------------------ T: native template derivation
+
+/// Derive (layout, kind, crc ranges) for one shape from the real writer: kind 0 = layout,
+/// 1+i = payload variable i, 0xF0|g<<2|k = byte k of checksum group g.  A checksum group is a
+/// 4-byte window w for which one byte range [a, b) of the image satisfies
+/// crc32c(img[a..b]) == LE32(img[w..w+4]) in EVERY filling; the range is found by search, so
+/// nothing about the frame format is assumed.  Panics if the observations are not explained.
+#[cfg(not(kani))]
+pub fn derive(d: u64, lk: usize, lv: usize, second: u8) -> (Vec<u8>, Vec<u8>, Vec<(usize, usize)>) {
+    let nv = nvars(lk, lv, second);
+    let base: Vec<u8> = (0..nv).map(|i| 0x11 + i as u8).collect();
+    let img0 = run_writer(d, lk, lv, second, &base).expect("writer failed on the base filling");
+    let mut imgs = vec![img0.clone()];
+    for i in 0..nv {
+        let mut p = base.clone();
+        p[i] = 0x41 + i as u8;
+        let img = run_writer(d, lk, lv, second, &p).expect("writer failed on a perturbed filling");
+        assert_eq!(img.len(), img0.len(), "image length depends on a payload value");
+        imgs.push(img);
+    }
+    let n = img0.len();
+    let mut kind = vec![0u8; n];
+    // checksum groups by search
+    let mut crcs: Vec<(usize, usize)> = Vec::new();
+    let mut w = 0;
+    while w + 4 <= n {
+        let mut found = None;
+        'ranges: for a in 0..n {
+            for b in a + 1..=n {
+                if a < w + 4 && w < b {
+                    continue; // a checksum does not cover itself
+                }
+                if imgs.iter().all(|img| crc32c::crc32c(&img[a..b]).to_le_bytes() == img[w..w + 4]) {
+                    found = Some((a, b));
+                    break 'ranges;
+                }
+            }
+        }
+        if let Some(r) = found {
+            let g = crcs.len();
+            assert!(g < 4, "more than 4 checksum groups");
+            for k in 0..4 {
+                kind[w + k] = 0xf0 | ((g as u8) << 2) | k as u8;
+            }
+            crcs.push(r);
+            w += 4;
+        } else {
+            w += 1;
+        }
+    }
+    for j in 0..n {
+        if kind[j] != 0 {
+            continue;
+        }
+        let who: Vec<usize> = (0..nv).filter(|&i| imgs[i + 1][j] != img0[j]).collect();
+        assert!(who.len() <= 1, "position {} follows several payload variables but is not a checksum", j);
+        if who.len() == 1 {
+            let i = who[0];
+            assert_eq!(img0[j], base[i], "a payload position does not hold the variable itself");
+            assert_eq!(imgs[i + 1][j], 0x41 + i as u8, "a payload position does not follow the variable");
+            kind[j] = 1 + i as u8;
+        }
+    }
+    for i in 0..nv {
+        assert_eq!(kind.iter().filter(|&&k| k == 1 + i as u8).count(), 1, "variable {} does not occupy exactly one position", i);
+    }
+    // the scheme must reproduce every observed image with the real checksum
+    for (f, img) in imgs.iter().enumerate() {
+        let mut p = base.clone();
+        if f > 0 {
+            p[f - 1] = 0x41 + (f - 1) as u8;
+        }
+        let mut arr = [0u8; 128];
+        let mut karr = [0u8; 128];
+        arr[..n].copy_from_slice(&img0);
+        karr[..n].copy_from_slice(&kind);
+        let got = instantiate::<128>(&arr, &karr, &crcs, &p, crc32c::crc32c);
+        assert_eq!(&got[..n], &img[..], "template does not reproduce filling {}", f);
+    }
+    (img0, kind, crcs)
+}
+
+#[cfg(all(test, not(kani)))]
+#[test]
+fn verif_template() {
+    if std::env::var("VERIF_TEMPLATE").is_err() {
+        return;
+    }
+    println!("TEMPLATE-BEGIN");
+    std::panic::set_hook(Box::new(|_| {}));
+    for (name, d, lk, lv, second) in SHAPES {
+        let (d, lk, lv, second) = (*d, *lk, *lv, *second);
+        let r = std::panic::catch_unwind(move || derive(d, lk, lv, second));
+        let (layout, kind, crcs) = match r {
+            Ok(x) => x,
+            Err(e) => {
+                let msg = e.downcast_ref::<String>().cloned().or_else(|| e.downcast_ref::<&str>().map(|s| s.to_string())).unwrap_or_default();
+                println!("// TEMPLATE-FAIL {} {}", name, msg.replace('\n', " "));
+                println!("pub const T_{}_LEN: usize = 1;", name);
+                println!("pub const T_{}_LAYOUT: [u8; 1] = [0];", name);
+                println!("pub const T_{}_KIND: [u8; 1] = [0];", name);
+                println!("pub const T_{}_CRCS: [(usize, usize); 0] = [];", name);
+                continue;
+            }
+        };
+        println!("pub const T_{}_LEN: usize = {};", name, layout.len());
+        println!("pub const T_{}_LAYOUT: [u8; {}] = {:?};", name, layout.len(), layout);
+        println!("pub const T_{}_KIND: [u8; {}] = {:?};", name, kind.len(), kind);
+        println!("pub const T_{}_CRCS: [(usize, usize); {}] = {:?};", name, crcs.len(), crcs);
+    }
+    println!("TEMPLATE-END");
+}
+
+/// What a solver counterexample is replayed against natively: the REAL writer (real CRC, real
+/// setsum) followed by the REAL reader on its output, for the same shape, payload and cut.  A
+/// solver failure of W or R that is a genuine defect of the log shows up here as a broken round
+/// trip; one that does not is a defect of the decomposition and is reported as inconclusive.
+#[cfg(not(kani))]
+fn native_shape_check(d: u64, lk: usize, lv: usize, second: u8, t: &[u8], cut_mode: isize) {
+    let nv = nvars(lk, lv, second);
+    let p: Vec<u8> = (0..nv).map(|i| t[i] & 0x7f).collect();
+    let img = run_writer(d, lk, lv, second, &p).expect("the writer rejects the batches");
+    let cut = if cut_mode == -1 { img.len() } else if cut_mode == -2 { t[nv] as usize } else { cut_mode as usize };
+    if cut > img.len() {
+        return;
+    }
+    let mut arr = [0u8; 128];
+    arr[..img.len()].copy_from_slice(&img);
+    let r = ImgReader::<128> { img: arr, len: cut, base: BLOCK - d, pos: BLOCK - d };
+    let mut it = LogIterator::from_reader(opts(), r).unwrap();
+    let mut got = 0;
+    let mut errored = false;
+    loop {
+        match it.next() {
+            Ok(Some(kvr)) => {
+                if got == 0 {
+                    assert!(kvr.key == &p[..lk] && kvr.timestamp == p[lk] as u64 && kvr.value == Some(&p[lk + 1..lk + 1 + lv]), "first entry read back differs from what was appended");
+                } else {
+                    assert!(second != 0 && got == 1 && kvr.key == &p[lk + 1 + lv..lk + 2 + lv] && kvr.timestamp == p[lk + 2 + lv] as u64, "second entry read back differs from what was appended");
+                    if second == 1 {
+                        assert!(kvr.value.is_none(), "second entry read back differs from what was appended");
+                    } else {
+                        assert!(kvr.value == Some(&p[lk + 3 + lv..lk + 4 + lv]), "second entry read back differs from what was appended");
+                    }
+                }
+                got += 1;
+            }
+            Ok(None) => break,
+            Err(_) => {
+                errored = true;
+                break;
+            }
+        }
+    }
+    let total = if second != 0 { 2 } else { 1 };
+    assert!(got <= total, "the reader yields more entries than were appended");
+    if second == 2 {
+        assert!(got != 1, "a batch of two entries is returned whole or not at all");
+    }
+    if cut == img.len() {
+        assert!(got == total && !errored, "an intact log does not round trip");
+    }
+}
+#[cfg(not(kani))]
+fn native_roundtrip(t: &[u8]) {
+    let (_, d, lk, lv, second) = SHAPES[(t[0] as usize) % SHAPES.len()];
+    native_shape_check(d, lk, lv, second, &t[1..], if t[15] & 1 == 1 { -2 } else { -1 });
+}
+harness!(native_roundtrip_selftest, 16, |t| {
+    #[cfg(not(kani))]
+    native_roundtrip(t);
+});
+
+harness_list!(
+    native_roundtrip_selftest,
+    w_whole_d40, r_whole_d40, c_whole_d40, w_two_d60, r_two_d60, c_two_d60, w_exact_d22, r_exact_d22, c_exact_d22,
+    w_pad_d5, r_pad_d5, c_pad_d5, w_split_d20, r_split_d20, c_split_d20, w_pad_d1, r_pad_d1, c_pad_d1,
+    w_bound_d0, r_bound_d0, c_bound_d0, w_split_d21, r_split_d21, c_split_d21, w_exact_d25, r_exact_d25, c_exact_d25,
+    w_two_pad_d23, r_two_pad_d23, c_two_pad_d23, w_pad_d19, r_pad_d19, c_pad_d19, w_split_d26, r_split_d26, c_split_d26,
+    w_batch2_d32, r_batch2_d32, c_batch2_d32, w_batch2_d60, r_batch2_d60, c_batch2_d60,
+    k_batch2_d32_at_boundary, k_batch2_d32_before_boundary, k_batch2_d32_after_boundary, k_batch2_d32_mid_padding,
+    k_whole_d40_last_byte, k_whole_d40_first_byte, k_whole_d40_empty, k_split_d20_at_boundary, k_two_d60_between, k_two_d60_in_second,
+);
